@@ -70,6 +70,7 @@ func InitGenesis(
 // ExportGenesis exports genesis state of the EVM module
 func ExportGenesis(ctx sdk.Context, k *evmkeeper.Keeper) *evmtypes.GenesisState {
 	var ethGenAccounts []evmtypes.GenesisAccount
+	exported := make(map[common.Address]struct{})
 	k.IterateContracts(ctx, func(addr common.Address, codeHash common.Hash) bool {
 		if evmtypes.IsEmptyCodeHash(codeHash) {
 			// ignore non-contract accounts
@@ -85,6 +86,22 @@ func ExportGenesis(ctx sdk.Context, k *evmkeeper.Keeper) *evmtypes.GenesisState 
 		}
 
 		ethGenAccounts = append(ethGenAccounts, genAccount)
+		exported[addr] = struct{}{}
+		return false
+	})
+
+	// accounts without code can own storage as well (a constructor that wrote storage and returned no code,
+	// or a genesis account listed with storage only): InitGenesis restores them from an entry with empty code
+	k.IterateStorageOwners(ctx, func(addr common.Address) bool {
+		if _, done := exported[addr]; done {
+			return false
+		}
+
+		ethGenAccounts = append(ethGenAccounts, evmtypes.GenesisAccount{
+			Address: addr.String(),
+			Code:    "",
+			Storage: k.GetAccountStorage(ctx, addr),
+		})
 		return false
 	})
 
